@@ -14,9 +14,9 @@ INFO = {
         'normalisation, because both runs create the same primitive applications). sat models are replayed in floats against the '
         'float evaluation of the reference at 1e-9 relative.'),
     'bounds': {
-        'quick': 'all five models; shapes (1,1),(2,1) x 3 orders, (1,1,1) x 13 orders [TM: (1,1) all orders, (2,1) strict orders]; PL/BT with default gamma also 4, 5, 6 and 8 single-player teams, (3,2,1), (2,2,2), (4,4), (8,8), (3,1,4,1), (2,3,1,2,1) on selected outcomes incl. multi-way ties; '
+        'quick': 'all five models; shapes (1,1),(2,1) x 3 orders, (1,1,1) x 13 orders [TM: (1,1) all orders, (2,1) strict orders, (1,1,1): partial pairing all orders with at most one tied pair, full pairing strict orders and three one-tie orders, (2,1,1)/(1,2,1) strict]; PL/BT with default gamma also 4, 5, 6 and 8 single-player teams, (3,2,1), (2,2,2), (4,4), (8,8), (3,1,4,1), (2,3,1,2,1) on selected outcomes incl. multi-way ties; '
                  'limit_sigma off with default gamma and on with uninterpreted gamma',
-        'thorough': '+ (2,2), (1,2,1), (1,1,1,1) x 75 orders for PL/BT; TM (2,1) ties, TM-part (1,1,1) with ties',
+        'thorough': '+ (2,2), (1,2,1), (1,1,1,1) x 75 orders for PL/BT; TM (2,1) ties, TM (1,1,1) all 13 orders',
     },
     'outside': ['IEEE rounding (1e-9 figure only evaluated in replays)', '5-8 teams, 3-8 players per team',
                 'TM full pairing with ties among 3+ teams',
@@ -68,10 +68,15 @@ def jobs(tier):
         for shape, W in [((1,) * 8, (0, 1, 2, 3, 4, 5, 6, 7)), ((1,) * 8, (0, 0, 1, 2, 2, 2, 3, 4))]:
             if key != 'btf' or tier == 'thorough':
                 add(key, shape, W, 'plain', 1200, 400)
-    if tier == 'thorough':
-        for W in [(0, 1, 2), (2, 0, 1), (1, 0, 1)]:
-            add('tmp', (1, 1, 1), W, 'plain', 2400, 1200)
-        add('tmf', (1, 1, 1), (0, 1, 2), 'plain', 2400, 1200)
+    # Thurstone-Mosteller with three teams: every path (3 guard outcomes per pair evaluation) is a syntactic identity
+    for W in H.weak_orders(3):
+        ntied = sum(1 for a in range(3) for b in range(a + 1, 3) if W[a] == W[b])
+        if ntied <= 1 or tier == 'thorough':
+            add('tmp', (1, 1, 1), W, 'plain', 900 if ntied <= 1 else 3000, 100 + 300 * ntied)
+        if ntied == 0 or W in ((0, 0, 1), (1, 0, 0), (1, 0, 1)) or tier == 'thorough':
+            add('tmf', (1, 1, 1), W, 'plain', 900 if ntied <= 1 else 3000, 150 + 400 * ntied)
+    add('tmp', (2, 1, 1), (1, 0, 2), 'plain', 900, 200)
+    add('tmf', (1, 2, 1), (2, 1, 0), 'plain', 900, 300)
     return out
 
 
